@@ -106,10 +106,26 @@ def call_map(poly, q):
     from tracklib.algo.mapping import mapOnTrack
     from tracklib.core.obs_coords import ENUCoords
     s = scale_of(q, *poly)
+    # history (every other call): the Track object was used for a projection BEFORE its geometry was edited in place into
+    # the polyline under test (same number of vertices): the answer is defined by the geometry at the time of the call
+    reuse = (int(q[0]) + 2 * int(q[1]) + len(poly)) % 2 == 0
     try:
         with core.quiet():
-            c, d, i = mapOnTrack(ENUCoords(float(q[0]) * s, float(q[1]) * s, 0.0), mk_track(poly, s))
+            if reuse:
+                trk = mk_track([(p[0] + 3, 2 - p[1]) for p in poly], s)
+                try:
+                    mapOnTrack(ENUCoords(float(q[0]) * s, float(q[1]) * s, 0.0), trk)
+                except Exception:
+                    pass
+                for k, p in enumerate(poly):
+                    trk[k].position.setX(float(p[0]) * s)
+                    trk[k].position.setY(float(p[1]) * s)
+            else:
+                trk = mk_track(poly, s)
+            c, d, i = mapOnTrack(ENUCoords(float(q[0]) * s, float(q[1]) * s, 0.0), trk)
         e = abstract(poly, q, False, d / s, c.getX() / s, c.getY() / s, i)
+        if reuse:
+            e["hist"] = "track object reused after an in-place edit"
     except Exception as ex:
         e = abstract(poly, q, True)
         e["exc"] = repr(ex)[:80]
